@@ -32,6 +32,37 @@ theorem mem_chain {step : σ → τ → σ} {en : σ → τ → Bool} {t : τ} :
     · simp only [List.mem_singleton] at hx
       exact ⟨0, by simp [hx, iter]⟩
 
+theorem mem_chainTo [DecidableEq ο] {step : σ → τ → σ} {en : σ → τ → Bool} {obs : σ → ο} {t : τ} {o : ο} :
+    ∀ (fuel : Nat) (seen : Bool) (c x : σ), x ∈ chainTo step en obs t o fuel seen c →
+      ∃ n, x = iter step t n c ∧ obs x = o := by
+  intro fuel
+  induction fuel with
+  | zero =>
+    intro seen c x hx
+    unfold chainTo at hx
+    by_cases hh : obs c = o <;> simp [hh] at hx
+    exact ⟨0, by simp [hx, iter], by simp [hx, hh]⟩
+  | succ k ih =>
+    intro seen c x hx
+    unfold chainTo at hx
+    by_cases hh : obs c = o
+    · simp only [hh, decide_true, Bool.not_true, Bool.and_false, Bool.false_eq_true, if_false,
+        if_true, Bool.or_true] at hx
+      rcases List.mem_cons.mp hx with h | h
+      · exact ⟨0, by simp [h, iter], by simp [h, hh]⟩
+      · split at h
+        · obtain ⟨n, hn, ho⟩ := ih _ _ _ h
+          exact ⟨n + 1, by simp [hn, iter], ho⟩
+        · simp at h
+    · simp only [hh, decide_false, Bool.not_false, Bool.and_true, Bool.or_false] at hx
+      split at hx
+      · simp at hx
+      · simp only [Bool.false_eq_true, if_false] at hx
+        split at hx
+        · obtain ⟨n, hn, ho⟩ := ih _ _ _ hx
+          exact ⟨n + 1, by simp [hn, iter], ho⟩
+        · simp at hx
+
 theorem mem_pruneGo (key : σ → String) :
     ∀ (l : List σ) (seen : Std.HashSet String) (x : σ), x ∈ pruneGo key l seen → x ∈ l := by
   intro l
@@ -59,9 +90,9 @@ theorem mem_advance {S : List σ} {t : τ} {o : ο} {x : σ}
     ∃ c ∈ S, ∃ n, x = iter step t n c ∧ obs x = o := by
   unfold advance at h
   have h := hprune _ _ h
-  simp only [List.mem_flatMap, List.mem_filter, decide_eq_true_eq] at h
-  obtain ⟨c, hc, hx, ho⟩ := h
-  obtain ⟨n, hn⟩ := mem_chain fuel c x hx
+  simp only [List.mem_flatMap] at h
+  obtain ⟨c, hc, hx⟩ := h
+  obtain ⟨n, hn, ho⟩ := mem_chainTo fuel false c x hx
   exact ⟨c, hc, n, hn, ho⟩
 
 include hprune in
@@ -147,11 +178,11 @@ end CpProofs.C20Admit
 namespace CpProofs.C20Admit
 open CpModel.C20Admit
 
-variable {σ τ : Type}
+variable {σ τ ο : Type}
 
 /-- what a positive answer of the driver's admission test means -/
-theorem admitsInit_sound (step : σ → τ → σ) (en : σ → τ → Bool) (obs : σ → String) (key : σ → String)
-    (fuel : Nat) (c0 : σ) (o0 : String) (tr : List (τ × String))
+theorem admitsInit_sound [DecidableEq ο] (step : σ → τ → σ) (en : σ → τ → Bool) (obs : σ → ο) (key : σ → String)
+    (fuel : Nat) (c0 : σ) (o0 : ο) (tr : List (τ × ο))
     (h : admitsInit step en obs key fuel c0 o0 tr = true) :
     obs c0 = o0 ∧ ∃ cs, Follows step obs c0 tr cs := by
   unfold admitsInit at h
